@@ -436,6 +436,21 @@ def run(chk):
             if r.chance(1, 2):
                 bufs.append(pre + v + post)
         bufs.append(v)
+        # a string with `fullword`: the ends of every alphanumeric range and the bytes just outside them (0 9 A Z a z and / : @ [ ` {) on either
+        # side of an occurrence, as a byte for the narrow form and as a 16-bit character for the wide form
+        fw = [(t_, m_) for t_, m_ in strings if m_["fullword"]]
+        if fw:
+            t1, m1 = fw[0]
+            for wide_form in ([False] if not m1["wide"] else [True] if not m1["ascii"] else [False, True]):
+                occ = t1 if not wide_form else b"".join(bytes([c, 0]) for c in t1)
+                if m1["xor"] is not None:
+                    continue
+                parts = []
+                for nbc in b"09AZaz/:@[`{":
+                    nbb = bytes([nbc, 0]) if wide_form else bytes([nbc])
+                    parts.append(nbb + occ + b"  " + occ + nbb + b"  ")
+                bufs.append(b"  " + b"".join(parts[:6]))
+                bufs.append(b"  " + b"".join(parts[6:]))
         if i % 10 == 0:
             bufs.append(b"")
         cmds = ["newcompiler", "add " + hx(src.encode()), "getrules", "save", "scanner 0"] + ["scan " + hx(b) for b in bufs]
